@@ -1,7 +1,7 @@
 (* L3 proofs: what a push writes and when (C10 dry run, C17 clean refusal). *)
 From Coq Require Import List ZArith NArith Bool Lia Arith String.
 Import ListNotations.
-From RQ Require Import Base Apply Parser Writer Quilt.
+From RQ Require Import Base Apply Parser Writer Quilt WriterProofs.
 Local Open Scope N_scope.
 Local Notation length := List.length (only parsing).
 
@@ -84,17 +84,25 @@ Proof.
   destruct (ov_get _ _); [|discriminate]. destruct (ov_get _ _); discriminate.
 Qed.
 
-Lemma late_rej : forall fuel dm st index, late_only (rollback_and_save_rej fuel dm st index).
+(* rendering the rejects never ends with an error value: it succeeds or hits an assertion *)
+Lemma render_no_err : forall fuel st index acc e, rollback_and_render_rej fuel st index acc <> RErr e.
 Proof.
-  induction fuel as [|f IH]; intros dm st index; cbn [rollback_and_save_rej]; [apply late_mret|].
-  destruct (a_applied st) as [|s rest]; [apply late_mret|].
-  destruct (Nat.ltb index (st_index s)); [apply late_mlift; discriminate|].
-  destruct (Nat.ltb (st_index s) index); [apply late_mret|].
-  apply late_mbind; [apply late_mlift; intros e H; exfalso; eapply ov_rollback_no_err; eassumption|].
-  intros [ov' x]. destruct (r_failed (st_report s)); [|apply IH].
-  destruct (has_dotdot _); [apply late_mlift; intros e [= <-]; reflexivity|].
-  apply late_mbind; [apply late_mlift; intros e H; exfalso; unfold write_rej_bytes in H; eapply lift_no_err; eassumption|].
-  intros data. apply late_mbind; [|intros; apply IH].
+  induction fuel as [|f IH]; intros st index acc e; cbn [rollback_and_render_rej]; [discriminate|].
+  destruct (a_applied st) as [|s rest]; [discriminate|].
+  destruct (Nat.ltb index (st_index s)); [discriminate|].
+  destruct (Nat.ltb (st_index s) index); [discriminate|].
+  destruct (ov_rollback (a_files st) s) as [[ov' x]|e0|] eqn:Er; cbn [rbind];
+    [|exfalso; eapply ov_rollback_no_err; eassumption|discriminate].
+  destruct (r_failed (st_report s)); [|apply IH].
+  destruct (write_rej_bytes s) as [data|e1|] eqn:Ew; cbn [rbind];
+    [apply IH|exfalso; unfold write_rej_bytes in Ew; eapply lift_no_err; eassumption|discriminate].
+Qed.
+
+Lemma late_save_rej_files dm : forall rejs, late_only (save_rej_files dm rejs).
+Proof.
+  induction rejs as [|[rn data] rest IH]; cbn [save_rej_files]; [apply late_mret|].
+  destruct (has_dotdot rn); [apply late_mlift; intros e [= <-]; reflexivity|].
+  apply late_mbind; [|intros; apply IH].
   apply late_mop. intros x0 e. destruct x0; [discriminate|intros [= <-]; reflexivity].
 Qed.
 
@@ -142,26 +150,38 @@ Proof.
   intros fs1. apply late_mop; intros x e [= <-]; reflexivity.
 Qed.
 
-Lemma early_clean_apply_series cfg db : forall series st index, early_clean (apply_series cfg db st index series).
+(* the apply loop only reads: patches are applied, and the failing one is rolled back, in memory *)
+Lemma pure_mbind {A B} (x : M A) (f : A -> M B) : pure_read x -> (forall a, pure_read (f a)) -> pure_read (mbind x f).
 Proof.
-  induction series as [|sp rest IH]; intros st index; cbn [apply_series].
-  - apply late_early_clean, late_mret.
-  - destruct (db_get (sp_name sp) db) as [data|]; [|intros fs fs' e [= <- _] _; reflexivity].
-    destruct (parse_patch data (sp_strip sp) false) as [[p|pe]| |];
-      try (intros fs fs' e [= <- _] _; reflexivity).
-    apply early_clean_pure_bind; [apply pure_mget|]. intros fs0.
-    apply early_clean_pure_bind; [apply pure_mlift|]. intros [failed st'].
-    destruct failed; [|apply IH].
-    destruct (c_dry_run cfg); [apply late_early_clean, late_mret|].
-    apply late_early_clean. apply late_mbind; [apply late_rej|intros; apply late_mret].
+  intros Hx Hf fs fs' r. unfold mbind. destruct (x fs) as [fs1 r1] eqn:E. pose proof (Hx _ _ _ E) as ->.
+  destruct r1 as [a|e|]; [apply Hf|intros [= <- _]; reflexivity|intros [= <- _]; reflexivity].
 Qed.
+
+Lemma pure_apply_series cfg db : forall series st index, pure_read (apply_series cfg db st index series).
+Proof.
+  induction series as [|sp rest IH]; intros st index; cbn [apply_series]; [apply pure_mret|].
+  destruct (db_get (sp_name sp) db) as [data|]; [|apply pure_mlift].
+  destruct (parse_patch data (sp_strip sp) false) as [[p|pe]| |]; try apply pure_mlift.
+  apply pure_mbind; [apply pure_mget|]. intros fs0.
+  apply pure_mbind; [apply pure_mlift|]. intros [failed st'].
+  destruct failed; [|apply IH].
+  destruct (c_dry_run cfg); [apply pure_mret|].
+  apply pure_mbind; [apply pure_mlift|]. intros [st'' rejs]. apply pure_mret.
+Qed.
+
+Lemma pure_early_clean {A} (x : M A) : pure_read x -> early_clean x.
+Proof. intros H fs fs' e Hx _. eapply H. eassumption. Qed.
+
+Lemma early_clean_apply_series cfg db series st index : early_clean (apply_series cfg db st index series).
+Proof. apply pure_early_clean, pure_apply_series. Qed.
 
 Lemma early_clean_apply_patches cfg db series : early_clean (apply_patches cfg db series).
 Proof.
   unfold apply_patches. apply early_clean_bind_late; [apply early_clean_apply_series|].
-  intros [st final]. destruct (c_dry_run cfg); [apply late_mret|].
+  intros [[st final] rejs]. destruct (c_dry_run cfg); [apply late_mret|].
   apply late_mbind; [apply late_save_all|]. intros cl.
   apply late_mbind; [apply late_clean_all|]. intros _.
+  apply late_mbind; [apply late_save_rej_files|]. intros _.
   destruct (match c_backup cfg with Always => true | OnFail => _ | Never => false end); [|apply late_mret].
   apply late_mbind; [apply late_backups|intros; apply late_mret].
 Qed.
@@ -172,6 +192,7 @@ Proof.
   unfold cmd_push. apply early_clean_pure_bind; [apply pure_mget|]. intros fs0.
   apply early_clean_pure_bind; [apply pure_mlift|]. intros [[series first] last].
   destruct (Nat.eqb first last); [apply late_early_clean, late_mret|].
+  apply early_clean_pure_bind; [apply pure_mlift|]. intros _.
   apply early_clean_bind_late; [apply early_clean_apply_patches|].
   intros n. apply late_mbind; [|intros; apply late_mret].
   destruct (c_dry_run cfg); [apply late_mret|apply late_save_applied].
@@ -212,24 +233,7 @@ Qed.
 
 Definition dry (cfg : config) : config :=
   {| c_fuzz := c_fuzz cfg; c_backup := c_backup cfg; c_backup_count := c_backup_count cfg; c_dry_run := true;
-     c_default_mode := c_default_mode cfg |}.
-
-Lemma pure_mbind {A B} (x : M A) (f : A -> M B) : pure_read x -> (forall a, pure_read (f a)) -> pure_read (mbind x f).
-Proof.
-  intros Hx Hf fs fs' r. unfold mbind. destruct (x fs) as [fs1 r1] eqn:E. pose proof (Hx _ _ _ E) as ->.
-  destruct r1 as [a|e|]; [apply Hf|intros [= <- _]; reflexivity|intros [= <- _]; reflexivity].
-Qed.
-
-Lemma pure_apply_series_dry cfg db : c_dry_run cfg = true ->
-  forall series st index, pure_read (apply_series cfg db st index series).
-Proof.
-  intros Hd. induction series as [|sp rest IH]; intros st index; cbn [apply_series]; [apply pure_mret|].
-  destruct (db_get (sp_name sp) db) as [data|]; [|apply pure_mlift].
-  destruct (parse_patch data (sp_strip sp) false) as [[p|pe]| |]; try apply pure_mlift.
-  apply pure_mbind; [apply pure_mget|]. intros fs0.
-  apply pure_mbind; [apply pure_mlift|]. intros [failed st'].
-  destruct failed; [rewrite Hd; apply pure_mret|apply IH].
-Qed.
+     c_default_mode := c_default_mode cfg; c_preload := c_preload cfg |}.
 
 (* with --dry-run the whole push is a pure read: files, directories and the op trace are unchanged *)
 Theorem dry_run_writes_nothing cfg db g : c_dry_run cfg = true -> pure_read (cmd_push cfg db g).
@@ -237,9 +241,10 @@ Proof.
   intros Hd. unfold cmd_push. apply pure_mbind; [apply pure_mget|]. intros fs0.
   apply pure_mbind; [apply pure_mlift|]. intros [[series first] last].
   destruct (Nat.eqb first last); [apply pure_mret|].
+  apply pure_mbind; [apply pure_mlift|]. intros _.
   apply pure_mbind.
-  - unfold apply_patches. apply pure_mbind; [apply pure_apply_series_dry; assumption|].
-    intros [st final]. rewrite Hd. apply pure_mret.
+  - unfold apply_patches. apply pure_mbind; [apply pure_apply_series|].
+    intros [[st final] rejs]. rewrite Hd. apply pure_mret.
   - intros n. rewrite Hd. apply pure_mbind; [apply pure_mret|intros; apply pure_mret].
 Qed.
 
@@ -247,7 +252,7 @@ Qed.
    applied patches, same early error *)
 Lemma apply_series_dry_same cfg db : forall series st index fs,
   match apply_series cfg db st index series fs, apply_series (dry cfg) db st index series fs with
-  | (_, ROk (_, n)), (_, ROk (_, n')) => n = n'
+  | (_, ROk (_, n, _)), (_, ROk (_, n', _)) => n = n'
   | (_, RErr e), (_, r') => early_error e = true -> r' = RErr e
   | (_, ROk _), (_, _) => False
   | (_, RPanic), _ => True
@@ -260,9 +265,8 @@ Proof.
   destruct (apply_file_patches fs st index sp (c_fuzz cfg) (pp_fps p) false) as [[failed st']|e0|]; auto.
   destruct failed; [|apply IH].
   cbn [c_dry_run dry mret]. destruct (c_dry_run cfg); [reflexivity|].
-  destruct (rollback_and_save_rej _ _ st' index fs) as [fs1 r] eqn:Er.
-  destruct r as [st''|e1|]; cbn [mret]; auto.
-  intros He. rewrite (late_rej _ _ _ _ _ _ _ Er) in He. discriminate.
+  destruct (rollback_and_render_rej _ st' index []) as [[st'' rejs]|e1|] eqn:Er; cbn [mret]; auto.
+  exfalso. eapply render_no_err. eassumption.
 Qed.
 
 (* C10, prediction: exit status of the dry run = exit status of the real run, whenever the real run
@@ -274,20 +278,23 @@ Theorem dry_run_predicts cfg db g fs :
   | (_, RPanic) => True
   end.
 Proof.
-  cbv [cmd_push apply_patches mbind mget mlift mret]. cbn [c_dry_run dry c_default_mode c_backup c_backup_count].
+  cbv [cmd_push apply_patches mbind mget mlift mret]. cbn [c_dry_run dry c_default_mode c_backup c_backup_count c_preload].
   destruct (resolve_range fs g) as [[[series first] last]|e0|]; cbn [snd]; auto.
   destruct (Nat.eqb first last); [reflexivity|].
   set (range := firstn (last - first) (skipn first series)).
+  destruct (if c_preload cfg then preload db range else ROk tt) as [[]|e0|]; cbn [snd]; auto.
   pose proof (apply_series_dry_same cfg db range {| a_applied := []; a_files := [] |} 0%nat fs) as Hs.
   destruct (apply_series cfg db _ 0 range fs) as [fs1 r1].
   destruct (apply_series (dry cfg) db _ 0 range fs) as [fs1' r1'].
-  destruct r1 as [[st n]|e1|]; [|cbn [snd]; intros He; rewrite (Hs He); reflexivity|exact I].
-  destruct r1' as [[st' n']|e1'|]; try contradiction. subst n'. cbn [snd].
+  destruct r1 as [[[st n] rejs]|e1|]; [|cbn [snd]; intros He; rewrite (Hs He); reflexivity|exact I].
+  destruct r1' as [[[st' n'] rejs']|e1'|]; try contradiction. subst n'. cbn [snd].
   destruct (c_dry_run cfg); [reflexivity|].
   destruct (save_all _ _ _ fs1) as [fs2 r2] eqn:E2.
   destruct r2 as [cl|e2|]; [|intros He; rewrite (late_save_all _ _ _ _ _ _ E2) in He; discriminate|exact I].
-  destruct (clean_all cl fs2) as [fs3 r3] eqn:E3.
+  destruct (clean_all cl fs2) as [fs3' r3] eqn:E3.
   destruct r3 as [[]|e3|]; [|intros He; rewrite (late_clean_all _ _ _ _ E3) in He; discriminate|exact I].
+  destruct (save_rej_files _ rejs fs3') as [fs3 r3r] eqn:E3r.
+  destruct r3r as [[]|e3r|]; [|intros He; rewrite (late_save_rej_files _ _ _ _ _ E3r) in He; discriminate|exact I].
   destruct (match c_backup cfg with Always => true | OnFail => _ | Never => false end).
   - destruct (backups _ _ _ _ fs3) as [fs4 r4] eqn:E4.
     destruct r4 as [[]|e4|]; [|intros He; rewrite (late_backups _ _ _ _ _ _ _ E4) in He; discriminate|exact I].
@@ -295,4 +302,317 @@ Proof.
     destruct r5 as [[]|e5|]; [reflexivity|intros He; rewrite (late_save_applied _ _ _ _ _ E5) in He; discriminate|exact I].
   - destruct (save_applied _ _ fs3) as [fs5 r5] eqn:E5.
     destruct r5 as [[]|e5|]; [reflexivity|intros He; rewrite (late_save_applied _ _ _ _ _ E5) in He; discriminate|exact I].
+Qed.
+
+(* ---------- C05: the apply loop stops exactly at the first failing patch ---------- *)
+
+(* the outcome of one patch on the current in-memory state: Some (failed?, state) *)
+Definition patch_outcome (cfg : config) (db : patches_db) (fs : fsys) (st : astate) (index : nat) (sp : series_patch)
+  : option (bool * astate) :=
+  match db_get (sp_name sp) db with
+  | None => None
+  | Some data =>
+      match parse_patch data (sp_strip sp) false with
+      | Ok (Parsed p) => match apply_file_patches fs st index sp (c_fuzz cfg) (pp_fps p) false with
+                         | ROk x => Some x
+                         | _ => None
+                         end
+      | _ => None
+      end
+  end.
+
+(* all patches of [series] apply without a failing hunk, from state st (index idx) to state st' *)
+Inductive all_apply (cfg : config) (db : patches_db) (fs : fsys) : astate -> nat -> list series_patch -> astate -> Prop :=
+| AA_nil st idx : all_apply cfg db fs st idx [] st
+| AA_cons st idx sp rest st1 st' :
+    patch_outcome cfg db fs st idx sp = Some (false, st1) ->
+    all_apply cfg db fs st1 (S idx) rest st' ->
+    all_apply cfg db fs st idx (sp :: rest) st'.
+
+Theorem apply_series_first_failure cfg db : forall series st idx fs fs' st' n rejs,
+  apply_series cfg db st idx series fs = (fs', ROk (st', n, rejs)) ->
+  fs' = fs /\
+  exists pre rest st_mid,
+    series = pre ++ rest /\ n = (idx + length pre)%nat /\ all_apply cfg db fs st idx pre st_mid /\
+    match rest with
+    | [] => st' = st_mid /\ rejs = []
+    | sp :: _ =>
+        exists st_f, patch_outcome cfg db fs st_mid n sp = Some (true, st_f) /\
+          (* the failing patch is rolled back in memory, its rejects are rendered (not yet written) *)
+          (if c_dry_run cfg then st' = st_f /\ rejs = []
+           else rollback_and_render_rej (S (length (a_applied st_f))) st_f n [] = ROk (st', rejs))
+    end.
+Proof.
+  intros series st idx fs fs' st' n rejs H.
+  split; [eapply pure_apply_series; eassumption|]. revert st idx fs fs' st' n rejs H.
+  induction series as [|sp rest IH]; intros st idx fs fs' st' n rejs; cbn [apply_series].
+  - intros [= <- <- <- <-]. exists [], [], st. cbn. split; [reflexivity|]. split; [lia|]. split; [constructor|auto].
+  - destruct (db_get (sp_name sp) db) as [data|] eqn:Ed; [|discriminate].
+    destruct (parse_patch data (sp_strip sp) false) as [[p|pe]| |] eqn:Ep; try discriminate.
+    cbv [mbind mget mlift].
+    destruct (apply_file_patches fs st idx sp (c_fuzz cfg) (pp_fps p) false) as [[failed st1]|e|] eqn:Ea; try discriminate.
+    destruct failed.
+    + (* this patch fails: the loop ends here *)
+      intros H. exists [], (sp :: rest), st. cbn [app List.length]. rewrite Nat.add_0_r.
+      assert (Hn : n = idx /\ (if c_dry_run cfg then st' = st1 /\ rejs = []
+                               else rollback_and_render_rej (S (length (a_applied st1))) st1 idx [] = ROk (st', rejs))).
+      { destruct (c_dry_run cfg); [cbn in H; injection H as _ <- <- <-; auto|].
+        destruct (rollback_and_render_rej _ st1 idx []) as [[st2 rj]|e|]; cbn in H; try discriminate.
+        injection H as _ <- <- <-. auto. }
+      destruct Hn as [-> Hr]. split; [reflexivity|]. split; [reflexivity|]. split; [constructor|].
+      exists st1. split; [unfold patch_outcome; rewrite Ed, Ep, Ea; reflexivity|exact Hr].
+    + intros H. destruct (IH _ _ _ _ _ _ _ H) as (pre & rest' & st_mid & -> & -> & Hall & Hrest).
+      exists (sp :: pre), rest', st_mid. cbn [app List.length]. split; [reflexivity|]. split; [lia|].
+      split; [econstructor; [unfold patch_outcome; rewrite Ed, Ep, Ea; reflexivity|exact Hall]|].
+      replace (idx + S (length pre))%nat with (S idx + length pre)%nat by lia. exact Hrest.
+Qed.
+
+(* the exit status is 0 exactly when the whole requested range applied, and the names appended to
+   applied-patches are the first n names of the range *)
+Theorem push_records_applied cfg db g fs fs' ok :
+  cmd_push cfg db g fs = (fs', ROk ok) ->
+  exists series first last,
+    resolve_range fs g = ROk (series, first, last) /\
+    ((first = last /\ ok = true /\ fs' = fs) \/
+     (first <> last /\
+      exists n fs1, fst (apply_patches cfg db (firstn (last - first) (skipn first series)) fs) = fs1 /\
+                    snd (apply_patches cfg db (firstn (last - first) (skipn first series)) fs) = ROk n /\
+                    ok = Nat.eqb n (length (firstn (last - first) (skipn first series))) /\
+                    (c_dry_run cfg = false ->
+                     snd (save_applied (c_default_mode cfg) (firstn n (firstn (last - first) (skipn first series))) fs1) = ROk tt))).
+Proof.
+  cbv [cmd_push mbind mget mlift mret]. intros H.
+  destruct (resolve_range fs g) as [[[series first] last]|e|]; try discriminate H.
+  exists series, first, last. split; [reflexivity|].
+  destruct (Nat.eqb_spec first last) as [->|Hne].
+  - injection H as <- <-. left. auto.
+  - right. split; [assumption|].
+    destruct (if c_preload cfg then preload db _ else ROk tt) as [[]|e0|]; try discriminate H.
+    destruct (apply_patches cfg db _ fs) as [fs1 [n|e|]] eqn:Ea; try discriminate H.
+    exists n, fs1. cbn [fst snd]. split; [reflexivity|]. split; [reflexivity|].
+    destruct (c_dry_run cfg).
+    + injection H as _ <-. split; [reflexivity|discriminate].
+    + destruct (save_applied _ _ fs1) as [fs2 [[]|e|]] eqn:Es; try discriminate H.
+      injection H as _ <-. split; [reflexivity|]. intros _. reflexivity.
+Qed.
+
+(* ---------- C08: when backups are produced ---------- *)
+
+(* --backup never: the backup phase is not run at all *)
+Theorem backup_never cfg db series : c_backup cfg = Never -> c_dry_run cfg = false ->
+  apply_patches cfg db series =
+  (dom x <- apply_series cfg db {| a_applied := []; a_files := [] |} 0 series;
+   let '(st, final, rejs) := x in
+   dom cleaning <- save_all (c_default_mode cfg) (a_files st) [];
+   dom _ <- clean_all cleaning;
+   dom _ <- save_rej_files (c_default_mode cfg) rejs; mret final).
+Proof. intros Hb Hd. unfold apply_patches. rewrite Hb, Hd. reflexivity. Qed.
+
+(* onfail: backups exactly when the push stopped early; the window is the last n applied patches *)
+Theorem backup_window cfg db series : c_dry_run cfg = false ->
+  apply_patches cfg db series =
+  (dom x <- apply_series cfg db {| a_applied := []; a_files := [] |} 0 series;
+   let '(st, final, rejs) := x in
+   dom cleaning <- save_all (c_default_mode cfg) (a_files st) [];
+   dom _ <- clean_all cleaning;
+   dom _ <- save_rej_files (c_default_mode cfg) rejs;
+   if match c_backup cfg with Always => true | OnFail => negb (Nat.eqb final (length series)) | Never => false end
+   then dom _ <- backups (c_default_mode cfg) (a_files st) (a_applied st)
+                         (match c_backup_count cfg with BAll => 0%nat | BLast n => (final - n)%nat end);
+        mret final
+   else mret final).
+Proof. intros Hd. unfold apply_patches. rewrite Hd. reflexivity. Qed.
+
+(* what one step of the backup walk writes: the file as ModifiedFiles::rollback returns it, i.e. (by
+   C04_tree) the state before that file patch; statuses below the window are not touched *)
+Theorem backups_step dm ov s rest down_to :
+  (down_to <= st_index s)%nat ->
+  backups dm ov (s :: rest) down_to =
+  (dom r <- mlift (ov_rollback ov s);
+   let '(ov', file) := r in
+   dom _ <- save_backup dm (st_patch s) (st_target s) file;
+   dom _ <- (if pf_rename (st_fp s) then
+               match pf_new (st_fp s) with
+               | None => mlift RPanic
+               | Some n => match ov_get n ov' with None => mlift RPanic | Some nf => save_backup dm (st_patch s) n nf end
+               end
+             else mret tt);
+   backups dm ov' rest down_to).
+Proof. intros H. cbn [backups]. destruct (Nat.ltb_spec (st_index s) down_to); [lia|reflexivity]. Qed.
+
+Theorem backups_stop dm ov s rest down_to :
+  (st_index s < down_to)%nat -> backups dm ov (s :: rest) down_to = mret tt.
+Proof. intros H. cbn [backups]. destruct (Nat.ltb_spec (st_index s) down_to); [reflexivity|lia]. Qed.
+
+(* ---------- C13: rejects only for the failing patch, only for file patches with a failed hunk ---------- *)
+
+(* the file patches whose rejects are rendered: those of patch [index] on top of the stack (last
+   applied first) whose report has a failed hunk *)
+Fixpoint rejected (stack : list status) (index : nat) : list status :=
+  match stack with
+  | [] => []
+  | s :: rest => if Nat.eqb (st_index s) index
+                 then (if r_failed (st_report s) then [s] else []) ++ rejected rest index
+                 else []
+  end.
+
+(* ... and what is left of the stack: everything below patch [index] *)
+Fixpoint below (stack : list status) (index : nat) : list status :=
+  match stack with
+  | [] => []
+  | s :: rest => if Nat.eqb (st_index s) index then below rest index else stack
+  end.
+
+Theorem render_spec : forall fuel st index acc st' rejs,
+  rollback_and_render_rej fuel st index acc = ROk (st', rejs) ->
+  (length (a_applied st) < fuel)%nat ->
+  exists l, rejs = acc ++ l /\ a_applied st' = below (a_applied st) index /\
+            Forall2 (fun s r => fst r = rej_name (st_target s) /\ write_rej_bytes s = ROk (snd r))
+                    (rejected (a_applied st) index) l.
+Proof.
+  induction fuel as [|f IH]; intros st index acc st' rejs H Hf; [lia|]. cbn [rollback_and_render_rej] in H.
+  destruct (a_applied st) as [|s rest] eqn:Ea.
+  - injection H as <- <-. exists []. rewrite app_nil_r, Ea. cbn. auto.
+  - destruct (Nat.ltb_spec index (st_index s)); [discriminate|].
+    destruct (Nat.ltb_spec (st_index s) index) as [Hlt|Hge].
+    + injection H as <- <-. exists []. rewrite app_nil_r, Ea. cbn [rejected below].
+      destruct (Nat.eqb_spec (st_index s) index); [lia|]. auto.
+    + assert (Hi : st_index s = index) by lia. cbn [rejected below]. rewrite Hi, Nat.eqb_refl.
+      destruct (ov_rollback (a_files st) s) as [[ov' x]|e0|]; cbn [rbind] in H; try discriminate.
+      cbn [List.length] in Hf.
+      destruct (r_failed (st_report s)).
+      * destruct (write_rej_bytes s) as [data|e1|] eqn:Ew; cbn [rbind] in H; try discriminate.
+        apply IH in H; [|cbn [a_applied]; lia]. destruct H as (l & -> & Hb & Hl). cbn [a_applied] in Hb, Hl.
+        exists ((rej_name (st_target s), data) :: l). rewrite <- app_assoc. split; [reflexivity|]. split; [assumption|].
+        cbn [app]. constructor; [cbn; auto|assumption].
+      * apply IH in H; [|cbn [a_applied]; lia]. destruct H as (l & -> & Hb & Hl). cbn [a_applied] in Hb, Hl.
+        exists l. auto.
+Qed.
+
+(* no reject for any other patch, none for a file patch whose hunks all applied *)
+Theorem rejected_only_failing stack index s : In s (rejected stack index) ->
+  In s stack /\ st_index s = index /\ r_failed (st_report s) = true.
+Proof.
+  induction stack as [|t rest IH]; cbn [rejected]; [contradiction|].
+  destruct (Nat.eqb_spec (st_index t) index) as [Hi|]; [|contradiction].
+  intros H. apply in_app_or in H. destruct H as [H|H].
+  - destruct (r_failed (st_report t)) eqn:Ef; [|contradiction]. destruct H as [<-|[]]. cbn. auto.
+  - destruct (IH H) as (? & ? & ?). cbn. auto.
+Qed.
+
+(* every failing file patch of the failing patch gets one, when the whole top of the stack belongs to it *)
+Theorem rejected_complete stack index s :
+  In s stack -> (forall t, In t stack -> st_index t = index) -> r_failed (st_report s) = true ->
+  In s (rejected stack index).
+Proof.
+  induction stack as [|t rest IH]; cbn [rejected]; [contradiction|].
+  intros Hin Hall Hf. rewrite (Hall t (or_introl eq_refl)), Nat.eqb_refl. apply in_or_app.
+  destruct Hin as [->|Hin]; [left; rewrite Hf; left; reflexivity|].
+  right. apply IH; auto. intros u Hu. apply Hall. right. assumption.
+Qed.
+
+(* what writing the rejects does: one create per reject, a missing directory bypasses that reject *)
+Theorem save_rej_files_step dm rn data rest : has_dotdot rn = false ->
+  save_rej_files dm ((rn, data) :: rest) =
+  (dom _ <- mop (fun fs => fs_create dm fs (normalize rn) None data)
+                (fun e => match e with NotFound => ROk tt | FsOther => RErr ESave end);
+   save_rej_files dm rest).
+Proof. intros H. cbn [save_rej_files]. rewrite H. reflexivity. Qed.
+
+(* ---------- C16: series lines ---------- *)
+
+Theorem series_comment_ignored l : parse_series_line (35 :: l) = ROk None \/ parse_series_line (35 :: l) = RErr EOutOfModel.
+Proof. unfold parse_series_line. destruct (existsb _ _); auto. Qed.
+
+Theorem series_blank_ignored : parse_series_line [] = ROk None.
+Proof. reflexivity. Qed.
+
+Theorem series_default_strip name : tokens name = [name] -> existsb (fun c => 128 <=? c) name = false ->
+  name <> [] -> (forall r, name <> 35 :: r) ->
+  parse_series_line name = ROk (Some {| sp_name := name; sp_strip := 1; sp_reverse := false |}).
+Proof.
+  intros Ht Ha Hne Hc. unfold parse_series_line. rewrite Ha.
+  destruct name as [|c r]; [contradiction|].
+  destruct (N.eqb_spec c 35) as [->|Hn]; [exfalso; eapply Hc; reflexivity|].
+  assert (Hm : match c :: r with [] => ROk None | 35 :: _ => ROk None | _ => match tokens (c :: r) with [] => ROk None | name :: opts => match opts with [] => ROk (Some {| sp_name := name; sp_strip := default_strip; sp_reverse := false |}) | _ => RErr ESeries end end end
+               = ROk (Some {| sp_name := c :: r; sp_strip := 1; sp_reverse := false |})).
+  { rewrite Ht. destruct c as [|p]; [reflexivity|].
+    repeat (destruct p as [p|p|]; try reflexivity); exfalso; apply Hn; reflexivity. }
+  revert Hm. rewrite Ht. destruct c as [|p]; [intros; reflexivity|].
+  repeat (destruct p as [p|p|]; try (intros; reflexivity)); exfalso; apply Hn; reflexivity.
+Qed.
+
+(* which name is patched: the old name iff it currently exists - in memory when it was touched
+   before in this run (not deleted), otherwise on disk - else the new name *)
+Theorem choose_old_iff_exists fs ov fp o n :
+  pf_old fp = Some o -> pf_new fp = Some n -> o <> n -> has_dotdot o = false ->
+  choose_filename fs ov fp =
+  ROk (if match ov_get o ov with
+          | Some m => negb (deleted m)
+          | None => fs_exists fs (normalize o)
+          end then o else n).
+Proof.
+  intros Ho Hn Hne Hd. unfold choose_filename. rewrite Ho, Hn.
+  destruct (bytes_eqb o n) eqn:E; [apply WriterProofs.bytes_eqb_eq in E; contradiction|].
+  destruct (ov_get o ov) as [m|]; [destruct (deleted m); reflexivity|].
+  rewrite Hd. destruct (fs_exists fs (normalize o)); reflexivity.
+Qed.
+
+Theorem choose_single_name fs ov fp x :
+  (pf_old fp = Some x /\ pf_new fp = None) \/ (pf_old fp = None /\ pf_new fp = Some x) \/
+  (pf_old fp = Some x /\ pf_new fp = Some x) ->
+  choose_filename fs ov fp = ROk x.
+Proof.
+  unfold choose_filename. intros [[-> ->]|[[-> ->]|[-> ->]]]; try reflexivity.
+  replace (bytes_eqb x x) with true; [reflexivity|]. symmetry. apply WriterProofs.bytes_eqb_eq. reflexivity.
+Qed.
+
+(* ---------- C09: composition ---------- *)
+
+(* a push whose requested range is already applied changes nothing and succeeds *)
+Theorem push_nothing_to_do cfg db g fs series first :
+  resolve_range fs g = ROk (series, first, first) -> cmd_push cfg db g fs = (fs, ROk true).
+Proof.
+  intros H. cbv [cmd_push mbind mget mlift mret]. rewrite H. rewrite Nat.eqb_refl. reflexivity.
+Qed.
+
+(* the goals that resolve to an empty range: -a / a count when the whole series is applied, a count of 0,
+   and a name that is the last applied patch *)
+Lemma resolve_all_done fs g series first last :
+  resolve_range fs g = ROk (series, first, last) -> first = length series -> g = GAll \/ (exists n, g = GCount n) ->
+  last = first.
+Proof.
+  unfold resolve_range. destruct (fs_read fs [b "series"]) as [sf|]; [|discriminate].
+  destruct (read_series (f_data sf)) as [s| |]; cbn [rbind]; try discriminate.
+  destruct (match fs_read fs [b ".pc"; b "applied-patches"] with inl _ => _ | inr _ => _ end) as [f| |]; cbn [rbind]; try discriminate.
+  intros H Hf [->|[n ->]]; cbn [rbind] in H.
+  - injection H as <- <- <-. auto.
+  - injection H as <- <- <-. subst. lia.
+Qed.
+
+(* in memory the apply loop composes: running it over pre ++ rest is running it over pre and, when all
+   of pre applied, continuing over rest with the state reached *)
+Theorem apply_series_app cfg db : forall pre rest st idx fs,
+  apply_series cfg db st idx (pre ++ rest) fs =
+  match apply_series cfg db st idx pre fs with
+  | (fs1, ROk (st1, n, rejs)) =>
+      if Nat.eqb n (idx + length pre) then
+        (* nothing is written while patches apply, so fs1 = fs here (apply_series_first_failure) *)
+        apply_series cfg db st1 n rest fs1
+      else (fs1, ROk (st1, n, rejs))
+  | other => other
+  end.
+Proof.
+  induction pre as [|sp pre IH]; intros rest st idx fs.
+  - cbn [app apply_series List.length]. cbv [mret]. rewrite Nat.add_0_r, Nat.eqb_refl. reflexivity.
+  - cbn [app apply_series List.length].
+    destruct (db_get (sp_name sp) db) as [data|]; [|reflexivity].
+    destruct (parse_patch data (sp_strip sp) false) as [[p|pe]| |]; try reflexivity.
+    cbv [mbind mget mlift]. destruct (apply_file_patches fs st idx sp (c_fuzz cfg) (pp_fps p) false) as [[failed st']|e|]; try reflexivity.
+    destruct failed.
+    + destruct (c_dry_run cfg).
+      * cbv [mret]. destruct (Nat.eqb_spec idx (idx + S (length pre))); [lia|reflexivity].
+      * destruct (rollback_and_render_rej _ st' idx []) as [[st'' rejs]|e|]; cbv [mret]; try reflexivity.
+        destruct (Nat.eqb_spec idx (idx + S (length pre))); [lia|reflexivity].
+    + rewrite IH. replace (S idx + length pre)%nat with (idx + S (length pre))%nat by lia. reflexivity.
 Qed.
